@@ -31,6 +31,7 @@ type ghostState struct {
 	frozen     map[*Value]string
 	private    map[*Value]bool
 	guards     map[*Value]*Value // guarded cell -> mutex cell
+	mapGuards  map[*Map]*Value   // guarded map -> mutex cell
 	atomicOp   int
 
 	// ledger
@@ -58,7 +59,7 @@ type mutexState struct {
 func newGhostState() *ghostState {
 	return &ghostState{pools: map[*Value]*poolState{}, mutexes: map[*Value]*mutexState{}, onces: map[*Value]bool{},
 		released: map[*Value]string{}, shared: map[*Value]bool{}, sharedMaps: map[*Map]bool{}, frozen: map[*Value]string{},
-		private: map[*Value]bool{}, guards: map[*Value]*Value{}, vfs: newVFS()}
+		private: map[*Value]bool{}, guards: map[*Value]*Value{}, mapGuards: map[*Map]*Value{}, vfs: newVFS()}
 }
 
 func (in *Interp) monAlloc(p *Value) {}
@@ -110,7 +111,28 @@ func (in *Interp) monStoreCell(p *Value) {
 	}
 }
 
+// monMapAccess enforces the lockset discipline on maps declared guarded-by a mutex.
+func (in *Interp) monMapAccess(m *Map, write bool) {
+	if m == nil || len(in.ghost.mapGuards) == 0 {
+		return
+	}
+	mu, ok := in.ghost.mapGuards[m]
+	if !ok {
+		return
+	}
+	ms := in.ghost.mutexes[mu]
+	held := ms != nil && (ms.locked || (!write && ms.readers > 0))
+	if !held {
+		if write {
+			in.X.assert(false, "guarded-map-write-without-lock")
+		} else {
+			in.X.assert(false, "guarded-map-read-without-lock")
+		}
+	}
+}
+
 func (in *Interp) monMapWrite(m *Map) {
+	in.monMapAccess(m, true)
 	g := in.ghost
 	if g.effMon && g.sharedMaps[m] {
 		// map writes are legal only under a held write lock of some guard registered for the map's holder;
